@@ -345,6 +345,13 @@ def fixed_cases() -> list:
             desc = dict(desc, attrs=attrs, order='permuted')
             size = len(base_tlvs(desc)[at + 1])
             _GRID.append({'session': session, 'base': desc, 'target': at, 'cor': {'kind': 'lenfield', 'delta': size}})
+    # labelled unicast (RFC 8277 2): an NLRI shorter than one label cannot be read
+    session = {'asn4': True, 'families': [[1, 1], [2, 4]], 'addpath': [], 'peer_as': 65000}
+    reach = {'afi': 2, 'safi': 4, 'hops': ['2001:db8::1'], 'entries': [{'prefix': '2001:db8:1::/48', 'labels': [16]}]}
+    desc = {'session': session, 'withdrawn': [], 'nlri': [], 'order': 'sorted', 'attrs': [{'code': 1, 'flags': 0x40, 'v': 0}, {'code': 2, 'flags': 0x40, 'v': [[2, [65001]]]}, {'code': 14, 'flags': 0x80, 'v': reach}]}
+    head = ws.attr_value_bytes(desc['attrs'][2], session)[:21]
+    for name, nlri in (('labelled-nlri-2-bits', b'\x02\x40'), ('labelled-nlri-0-bits', b'\x00'), ('labelled-nlri-23-bits', b'\x17\x00\x01\x01')):
+        _GRID.append({'session': session, 'base': desc, 'target': 2, 'cor': {'kind': 'value', 'name': name, 'hex': (head + nlri).hex()}})
     return _GRID
 
 
@@ -571,6 +578,7 @@ class _Judge:
         self.attr = attr
         self.kind = kind
         self.marked = 'unmarked'
+        self.rib = ''
         self.tail = f'UPDATE {body.hex()} session asn4={session["asn4"]} addpath={session["addpath"]} peer-as={session["peer_as"]}; reference: {faults}'
 
     def fail(self, clause: str, text: str, scope: str = 'kind') -> None:
@@ -580,6 +588,9 @@ class _Judge:
             sig = f'{clause}:{self.attr}'
         else:
             sig = f'{clause}:{self.attr}:{self.kind}'
+        if clause.startswith(('announced-despite-malformed', 'overrun-accepted', 'discard:api')):
+            # the API let the routes in: say what Adj-RIB-In did with them
+            sig += f':{self.rib}'
         raise Violation(sig, f'[{self.attr} {self.kind}] {text}; {self.tail}')
 
     def announced(self, clause: str, text: str) -> None:
@@ -627,10 +638,19 @@ def _check(case: dict) -> dict:
     classes.append(f'session:asn4={int(session["asn4"])},addpath={int(bool(session["addpath"]))},{"ebgp" if session["peer_as"] != 65000 else "ibgp"}')
     faults = ', '.join(f'{ref.name(f["code"])}/{f["kind"]}' for f in ana['faults']) or 'none'
     judge = _Judge(attr, kind, body, session, f'faults [{faults}] allowed {sorted(ana["allowed"])}')
-    if ana['faults'] and not any(f['code'] == what['code'] for f in ana['faults']):
+    own = [f['kind'] for f in ana['faults'] if f['code'] == what['code']]
+    if 'unrecognized-wellknown' in own or (not own and ana['faults'] and ana['faults'][0]['kind'] == 'unrecognized-wellknown'):
+        # one cause however it came about: an attribute nobody knows, with the Optional bit clear
+        judge.attr, judge.kind = 'UNKNOWN', 'unrecognized-wellknown'
+    elif case['cor']['kind'] == 'flags' and 'flags' in own:
+        judge.kind = 'flags'
+    elif ana['faults'] and not any(f['code'] == what['code'] for f in ana['faults']):
         # the corrupted attribute itself still reads well (a length field moved the boundaries): what is wrong is what follows
         first = ana['faults'][0]
         judge.attr, judge.kind = ref.name(first['code']), f'{first["kind"]}-behind-shifted-boundary'
+    elif what['code'] in (14, 15) and any(f['code'] == what['code'] and f['kind'] == 'value' for f in ana['faults']):
+        # whatever was done to it, the attribute now holds a next hop or an NLRI that cannot be read
+        judge.kind = 'unreadable-nexthop-or-nlri'
     elif case['cor']['kind'] in ('lenfield', 'extlen', 'flip') or case['cor'].get('random'):
         # a moved boundary or random bytes: name the fault it makes of the attribute itself (zero-length, value, framing:overrun ...)
         judge.kind = next((f['kind'] for f in ana['faults'] if f['code'] == what['code']), kind)
@@ -704,6 +724,7 @@ def _check(case: dict) -> dict:
 
     stored = {k for k, v in after.items() if k not in before or v['route'] is not before[k]['route']}
     announced = dict(api['announce']) if api else {}
+    judge.rib = 'rib-stored' if stored else ('rib-removed' if msg_routes and not (msg_routes & set(after)) else 'rib-unchanged')
     own_key = ATTR_KEY.get(what['code'])
 
     expected = None
@@ -725,8 +746,11 @@ def _check(case: dict) -> dict:
         if 'discard' not in allowed:
             framing = ana['framing']
             shown = f'{own_key}={api["attrs"].get(own_key)!r}' if own_key else (f'next hops {sorted({v[0] for v in announced.values()})}' if what['code'] in (3, 14, 15) else '')
-            if framing and framing['kind'] == 'overrun' and framing['offset'] == target_offset and marked == 'unmarked':
-                judge.fail('overrun-accepted:unmarked', f'declared length {framing["declared"]} with {framing["available"]} octets left in the block, yet {shown} is reported with announced routes {sorted(map(str, announced))[:2]}', 'attr')
+            if framing and framing['kind'] == 'overrun' and marked == 'unmarked':
+                # the parser raised nothing: the TLV that runs past the block was taken with the octets that were there
+                if framing['offset'] != target_offset:
+                    judge.attr, shown = ref.name(framing['code']), f'the attribute at offset {framing["offset"]}'
+                judge.fail('overrun-accepted:unmarked', f'declared length {framing["declared"]} with {framing["available"]} octets left in the block, yet {shown} is accepted and routes are announced {sorted(map(str, announced))[:2]}', 'attr')
             judge.announced('announced-despite-malformed', f'routes announced {sorted(map(str, announced))[:2]} with {shown or "the attribute"}; RFC 7606 asks for {sorted(allowed)}')
         _compare_discard('api', judge, expected, {'announce': announced, 'attrs': api['attrs'], 'withdraw': api['withdraw']}, ana, own_key)
 
